@@ -8,7 +8,7 @@ def run(ctx):
             "untrusted CA, corrupt signature, wrong expected name, issuer not a CA, unknown critical extension, expired intermediate, self-signed unanchored, wrong private key, path length exceeded at the trust anchor / at an intermediate, verifier without any trust anchor), most labels both with the leaf "
             "directly under the anchor and under an intermediate CA sent along (defect in a non-last certificate on the wire), x 16 scenarios "
             "(client verifying server over TLS 1.1/1.2/1.3/DTLS with RSA transport, ECDHE-RSA, ECDHE-ECDSA, TLS 1.3 RSA/ECDSA/Ed25519; server verifying client) x {no, strict, permissive} "
-            "callback. distinct_nontrivial = distinct (version, scenario, role, label, callback, chain shape) executed.")
+            "callback. distinct_nontrivial = distinct (version, scenario, role, label, callback, chain shape) executed. In addition 24 keyless-attacker cases: a peer holding no key at all answers the ClientHello of a TLS 1.2 client whose cache holds nothing / a session id / a ticket / a session id next to a stale ticket with ServerHello (echoed, different or empty session id; with or without session_ticket extension), ChangeCipherSpec and a Finished computed from public values under an all-zero master secret; the client must never complete.")
     return vflib.std_run(ctx, st, "exploration", rule,
         ["labels are ground truth by construction (gen/certgen.h signs with libcrypto)", "validity failures use +-10 days (the library grants 24 h of linger)",
          "transcript-replay / stale-signature proofs of possession are covered by C06/C07's tampering cases, not here"], min_nontrivial=300)
